@@ -267,8 +267,8 @@ theorem Inst.certify_sound (J : Inst) (hv : J.valid = true) (o : Inst.SOut) :
 /-- **ssp_sound** (`min_cost_flow` instances): for every network, terminals and demand, if the
 certified SSP model answers `feasible` its flow routes the demand within the capacities at
 minimum cost and the reported cost is Σ cost·flow; if it answers `infeasible` no feasible routing
-exists.  (The converse – it always answers when there is no negative cycle – is `ssp_certifies`,
-not proved; the check treats "no certified answer" as an infrastructure error.) -/
+exists.  (The converse – it always answers when there is no negative cycle – is `ssp_certifies`
+below.) -/
 theorem ssp_sound (n : Nat) (arcs : List Arc) (s t : Nat) (d : Int)
     (hv : (Inst.ofST n arcs s t d).valid = true) :
     ((solveST n arcs s t d).status = .feasible →
@@ -317,12 +317,55 @@ theorem ssp_certifies_partial (n : Nat) (arcs : List Arc) (s t : Nat) (d : Int)
   have hsup : (Inst.ofST n arcs s t d).STsup s t d := fun v hvn => ofST_sup n arcs s t d hvn
   have c := (Inst.ofST n arcs s t d).ssp_cert hV hc (s := s) (t := t) hs ht hd hsup
   exact ⟨Inst.certify_of_cert _ _ c, c.1, c.2⟩
--- FULL STATEMENT (not proved), `ssp_certifies`: additionally, if the arcs of positive capacity
--- contain no negative-cost cycle then `((Inst.ofST n arcs s t d).ssp s t d).status ≠ .negcycle`
--- (the parent pointers of every Bellman-Ford run are acyclic, the bottleneck is positive and the
--- zero-initialised Bellman-Ford of the potentials converges within `n` sweeps – the classical
--- invariant that augmenting along shortest paths keeps the residual network free of negative
--- cycles), and the same for the super-source/super-sink reduction used by `solveTS`.
+-- (The full statement – with no negative-cost cycle the search never ends without an answer – is
+-- `ssp_certifies` / `ssp_certifies_transshipment` below; this part needs no hypothesis on cycles.)
+/-- "No negative-cost cycle" and "feasible node potentials exist" are the same thing: `I.NC x` says
+that every closed walk of residual arcs of `x` has non-negative cost (for the zero flow the residual
+arcs are the arcs of positive capacity); potentials certify it, and conversely the converged
+zero-initialised Bellman-Ford labels are feasible potentials. -/
+theorem Inst.no_negative_cycle_iff_potentials (I : Inst) (hv : I.Valid) (x : List Int) :
+    I.NC x ↔ ∃ p, I.Pot x p :=
+  ⟨fun h => I.pot_of_nc hv h, fun ⟨_, hp⟩ => I.nc_of_pot hp⟩
+
+/-- **ssp_certifies** (`min_cost_flow` / `solve_assignment` instances): if the input network has no
+negative-cost cycle (every closed walk along arcs of positive capacity has non-negative cost), then
+for all capacities ≥ 0, terminals `s, t < n` and demand `d ≥ 0` the certified SSP model always
+answers: its status is never `negcycle`, i.e. the search ends either `feasible` with a certificate
+`chkMinCost` accepts or `infeasible` with a cut `chkInfeas` accepts (`ssp_certifies_partial`), and by
+`ssp_sound` that answer is right.  Proof ingredients (`SSPConv.lean`): Bellman-Ford parents never form
+a cycle (temporal argument on reduced labels), `n - 1` sweeps reach a fixed point (walk shortening by
+cycle cutting), so every parent arc is tight and the shortest-path labels are feasible potentials for
+the residual network after the augmentation; the zero-initialised Bellman-Ford of the final
+potentials converges for the same reason. -/
+theorem ssp_certifies (n : Nat) (arcs : List Arc) (s t : Nat) (d : Int)
+    (hv : (Inst.ofST n arcs s t d).valid = true) (hcap : ∀ a ∈ arcs, 0 ≤ a.cap)
+    (hs : s < n) (ht : t < n) (hd : 0 ≤ d)
+    (hnc : (Inst.ofST n arcs s t d).NC (List.replicate (Inst.ofST n arcs s t d).m 0)) :
+    (solveST n arcs s t d).status ≠ .negcycle := by
+  have hV := ((Inst.ofST n arcs s t d).valid_iff).1 hv
+  have hc : ∀ i < (Inst.ofST n arcs s t d).m, 0 ≤ ((Inst.ofST n arcs s t d).arc i).cap := by
+    intro i hi
+    have hi' : i < arcs.length := hi
+    have : (Inst.ofST n arcs s t d).arc i = arcs[i] := by
+      simp [Inst.arc, Inst.ofST, List.getD, List.getElem?_eq_getElem hi']
+    rw [this]
+    exact hcap _ (List.getElem_mem hi')
+  obtain ⟨p, hp⟩ := (Inst.ofST n arcs s t d).pot_of_nc hV hnc
+  rw [(ssp_certifies_partial n arcs s t d hv hcap hs ht hd).1]
+  exact (Inst.ofST n arcs s t d).ssp_answers hV hc (s := s) (t := t) hs ht hd
+    ((Inst.ofST n arcs s t d).pot_zero_rc hp)
+
+/-- **ssp_certifies** for transshipment instances (`network_simplex`'s problem, solved through the
+super-source / super-sink reduction `Inst.toST`): without a negative-cost cycle the certified solver
+`solveTS` always answers – unbalanced supplies are answered `infeasible` with the whole node set as
+cut, otherwise the certificate found for the reduced instance (saturated source/sink arcs, potentials
+restricted to the original nodes, reached set restricted to the original nodes) is accepted by the
+checker of the original instance. -/
+theorem ssp_certifies_transshipment (I : Inst) (hv : I.valid = true) (hcap : ∀ i < I.m, 0 ≤ (I.arc i).cap)
+    (hnc : I.NC (List.replicate I.m 0)) : (solveTS I).status ≠ .negcycle := by
+  have hV := (I.valid_iff).1 hv
+  obtain ⟨p, hp⟩ := I.pot_of_nc hV hnc
+  exact I.solveTS_answers hV hcap (I.pot_zero_rc hp)
 
 /-! ## C09 — assignment as a unit-capacity bipartite flow -/
 
@@ -402,6 +445,11 @@ example : (witnessInst.ssp 0 1 4).cost = 20 := by decide
 example : (solveST 2 [⟨1, 0, 2, 2⟩, ⟨0, 1, 1, 5⟩, ⟨0, 1, 4, 5⟩, ⟨1, 0, 3, 5⟩] 0 1 4).status = .feasible := by decide
 example : (solveST 2 [⟨1, 0, 2, 2⟩, ⟨0, 1, 1, 5⟩, ⟨0, 1, 4, 5⟩] 0 1 9).status = .infeasible := by decide
 example : (solveTS ⟨3, [⟨0, 1, 5, 2⟩, ⟨1, 2, 5, 1⟩, ⟨0, 2, 2, 4⟩], [6, 0, -6]⟩).status = .feasible := by decide +kernel
+-- hypothesis of `ssp_certifies` / `ssp_certifies_transshipment`: a network with a negative-cost arc and no
+-- negative cycle, certified by the potentials (0, -1, 0)
+example : (Inst.ofST 3 [⟨0, 1, 2, -1⟩, ⟨1, 2, 2, 3⟩, ⟨0, 2, 1, 1⟩] 0 2 2).NC (List.replicate 3 0) :=
+  Inst.nc_of_pot _ (Inst.pot_zero _ (p := fun v => if v = 1 then -1 else 0) (by decide))
+example : (solveST 3 [⟨0, 1, 2, -1⟩, ⟨1, 2, 2, 3⟩, ⟨0, 2, 1, 1⟩] 0 2 2).status = .feasible := by decide +kernel
 -- hypotheses of `chkInfeas_sound` / `infeasible_cut_cert`: demand 9 exceeds the capacity 5 out of {0}
 example : (Inst.ofST 2 [⟨1, 0, 2, 2⟩, ⟨0, 1, 1, 5⟩, ⟨0, 1, 4, 5⟩] 0 1 9).chkInfeas [0] = true := by decide
 -- hypotheses of `assignment_of_flow` / `chkAssign_sound`: a 2×3 assignment
